@@ -5,6 +5,7 @@
 //! * `qa gremlin nodes edges start hops preds order skip lim proj dedup agg`
 //! * `qa graphql nodes edges label hops preds cols order skip first`
 //! * `qa gqlstar nodes edges label t1 t2`
+//! * `qa cross nodes edges label hops preds key` (one question, four languages: `gql/cypher/gremlin/graphql`)
 //! * `qa raw nodes edges lang <hex query text>` (debugging aid: columns and rows as returned)
 #![allow(unused)]
 use crate::q::{GEdge, GNode, build_db, edges_arg, gen_graph, gen_query, nodes_arg, parse_edges, parse_nodes};
@@ -360,20 +361,90 @@ fn nvars_of(hops: &str) -> u64 {
     if hops == "-" { 1 } else { hops.split(',').count() as u64 + 1 }
 }
 
+/// A denser graph than `q::gen_graph`: most vertices carry labels and properties from a small
+/// domain (so that groups have several members), more edges, parallel edges and self-loops.
+fn gen_graph2(r: &mut Rng) -> (Vec<GNode>, Vec<GEdge>) {
+    let nn = match r.below(30) {
+        0 => 0,
+        1 => 1,
+        _ => r.range(3, 10),
+    };
+    let vals = ["I1", "I2", "I2", "I3", "I5", "S61", "S62", "I-4"];
+    let nodes: Vec<GNode> = (0..nn)
+        .map(|id| {
+            let mut labels: Vec<u64> = if r.chance(1, 10) { vec![] } else { (0..r.range(1, 2)).map(|_| r.below(3)).collect() };
+            labels.sort_unstable();
+            labels.dedup();
+            let mut props = vec![(9u64, format!("I{}", id * 10))];
+            for k in 0..3 {
+                if r.chance(7, 10) {
+                    props.push((k, r.pick(&vals).to_string()));
+                }
+            }
+            GNode { id, labels, props }
+        })
+        .collect();
+    let ne = if nn == 0 { 0 } else { r.below(2 * nn + 3) };
+    let edges: Vec<GEdge> = (0..ne)
+        .map(|id| {
+            let s = r.below(nn);
+            let d = if r.chance(1, 8) { s } else { r.below(nn) };
+            GEdge { id, src: s, dst: d, ty: r.below(2) }
+        })
+        .collect();
+    (nodes, edges)
+}
+
+/// start label, hops, predicates of a core pattern that matches often
+fn gen_core(r: &mut Rng, typed_out_only: bool) -> (String, String, String) {
+    let lab = |r: &mut Rng, p: u64| if r.chance(p, 10) { "*".to_string() } else { r.below(3).to_string() };
+    let start = lab(r, 6);
+    let nh = *r.pick(&[0usize, 0, 0, 1, 1, 1, 1, 2, 2]);
+    let hops: Vec<String> = (0..nh)
+        .map(|_| {
+            if typed_out_only {
+                format!("{}/o/*", r.below(2))
+            } else {
+                format!("{}/{}/{}", if r.chance(3, 5) { "*".to_string() } else { r.below(2).to_string() }, r.pick(&["o", "o", "i", "b"]), lab(r, 8))
+            }
+        })
+        .collect();
+    let np = *r.pick(&[0u64, 0, 0, 0, 1, 1, 1, 2]);
+    let lits = ["I1", "I2", "I3", "I5", "S61", "S62"];
+    let mut preds: Vec<String> = vec![];
+    let mut seen: Vec<(u64, u64, String)> = vec![];
+    for _ in 0..np {
+        let v = r.below(nh as u64 + 1);
+        let k = r.below(3);
+        let op = r.pick(&["eq", "ne", "ne", "lt", "le", "gt", "ge", "ge"]).to_string();
+        if seen.contains(&(v, k, op.clone())) {
+            continue;
+        }
+        seen.push((v, k, op.clone()));
+        preds.push(format!("c/{}/{}/{}/{}", v, k, op, r.pick(&lits)));
+    }
+    (start, list_arg(&hops), list_arg(&preds))
+}
+
 pub fn generate(seed: u64, cases: usize, out: &mut Vec<String>) {
     let mut r = Rng::new(seed ^ 0x7161);
     for c in 0..cases {
         out.push(format!("# case {} seed {}", c, seed));
-        let (mut nodes, edges) = gen_graph(&mut r);
+        let (mut nodes, edges) = if r.chance(1, 4) { gen_graph(&mut r) } else { gen_graph2(&mut r) };
         if r.chance(1, 3) {
             spice(&mut r, &mut nodes);
         }
         let (na, ea) = (nodes_arg(&nodes), edges_arg(&edges));
         // ---- grouping / aggregates, GQL and Cypher
-        for i in 0..3 {
-            let (mut start, mut hops, mut preds, _, _, _, _, _) = gen_query(&mut r);
+        for i in 0..4 {
+            let (mut start, mut hops, mut preds) = if i == 0 {
+                let (s, h, p, _, _, _, _, _) = gen_query(&mut r);
+                (s, h, p)
+            } else {
+                gen_core(&mut r, false)
+            };
             let (mut items, mut ord, mut skip, mut lim) = gen_items(&mut r, nvars_of(&hops));
-            if i == 2 && r.chance(1, 3) {
+            if i == 3 && r.chance(1, 3) {
                 // counts over variables on a two-hop chain (the planner's factorized aggregate)
                 let lab = |r: &mut Rng| if r.chance(3, 4) { "*".to_string() } else { r.below(3).to_string() };
                 start = if r.chance(1, 2) { "*".to_string() } else { r.below(3).to_string() };
@@ -399,10 +470,14 @@ pub fn generate(seed: u64, cases: usize, out: &mut Vec<String>) {
             }
         }
         // ---- Gremlin
-        for _ in 0..3 {
-            let (start, hops, preds, _, _, _, _, _) = gen_query(&mut r);
-            let preds: Vec<&str> = if preds == "-" { vec![] } else { preds.split(',').filter(|p| !p.starts_with("n/")).collect() };
-            let preds = if preds.is_empty() { "-".to_string() } else { preds.join(",") };
+        for i in 0..3 {
+            let (start, hops, preds) = if i == 0 {
+                let (s, h, p, _, _, _, _, _) = gen_query(&mut r);
+                let ps: Vec<&str> = if p == "-" { vec![] } else { p.split(',').filter(|x| !x.starts_with("n/")).collect() };
+                (s, h, if ps.is_empty() { "-".to_string() } else { ps.join(",") })
+            } else {
+                gen_core(&mut r, false)
+            };
             let order = if r.chance(2, 5) { format!("9{}", r.pick(&["a", "d"])) } else { "-".to_string() };
             let (skip, lim) = if order != "-" && r.chance(1, 2) {
                 (if r.chance(1, 2) { r.below(3).to_string() } else { "-".into() }, if r.chance(2, 3) { r.below(4).to_string() } else { "-".into() })
@@ -415,23 +490,17 @@ pub fn generate(seed: u64, cases: usize, out: &mut Vec<String>) {
             out.push(format!("qa gremlin {} {} {} {} {} {} {} {} {} {} {}", na, ea, start, hops, preds, order, skip, lim, proj, dedup, agg));
         }
         // ---- GraphQL
+        let present: Vec<u64> = {
+            let mut ls: Vec<u64> = nodes.iter().flat_map(|n| n.labels.iter().copied()).collect();
+            ls.sort_unstable();
+            ls.dedup();
+            ls
+        };
+        let pick_label = |r: &mut Rng| if !present.is_empty() && r.chance(9, 10) { *r.pick(&present) } else { r.below(3) };
         for _ in 0..2 {
-            let label = r.below(3);
-            let nh = *r.pick(&[0usize, 0, 1, 1, 2]);
-            let hops: Vec<String> = (0..nh).map(|_| format!("{}/o/*", r.below(2))).collect();
-            let lits = ["I1", "I2", "I3", "I5", "S61", "S62"];
-            let mut preds: Vec<String> = vec![];
-            let mut seen: Vec<(u64, u64, String)> = vec![];
-            for _ in 0..r.below(3) {
-                let v = r.below(nh as u64 + 1);
-                let k = r.below(3);
-                let op = r.pick(&["eq", "eq", "ne", "lt", "le", "gt", "ge"]).to_string();
-                if seen.contains(&(v, k, op.clone())) {
-                    continue;
-                }
-                seen.push((v, k, op.clone()));
-                preds.push(format!("c/{}/{}/{}/{}", v, k, op, r.pick(&lits)));
-            }
+            let label = pick_label(&mut r);
+            let (_, hops, preds) = gen_core(&mut r, true);
+            let nh = if hops == "-" { 0 } else { hops.split(',').count() };
             let mut cols: Vec<String> = vec![];
             for lvl in 0..=nh {
                 for k in [9u64, 0, 1, 2] {
@@ -441,27 +510,22 @@ pub fn generate(seed: u64, cases: usize, out: &mut Vec<String>) {
                     }
                 }
             }
-            let order = if r.chance(1, 8) { format!("9{}", r.pick(&["a", "d"])) } else { "-".to_string() };
+            let order = if r.chance(1, 10) { format!("9{}", r.pick(&["a", "d"])) } else { "-".to_string() };
             let (skip, first) = if r.chance(1, 5) {
                 (if r.chance(1, 2) { r.below(3).to_string() } else { "-".into() }, if r.chance(2, 3) { r.below(4).to_string() } else { "-".into() })
             } else {
                 ("-".into(), "-".into())
             };
-            out.push(format!(
-                "qa graphql {} {} {} {} {} {} {} {} {}",
-                na,
-                ea,
-                label,
-                list_arg(&hops),
-                list_arg(&preds),
-                cols.join(","),
-                order,
-                skip,
-                first
-            ));
+            out.push(format!("qa graphql {} {} {} {} {} {} {} {} {}", na, ea, label, hops, preds, cols.join(","), order, skip, first));
+        }
+        // ---- one question, four languages
+        {
+            let (_, hops, preds) = gen_core(&mut r, true);
+            let key = if r.chance(2, 3) { 9 } else { r.below(3) };
+            out.push(format!("qa cross {} {} {} {} {} {}", na, ea, pick_label(&mut r), hops, preds, key));
         }
         if r.chance(1, 3) {
-            out.push(format!("qa gqlstar {} {} {} {} {}", na, ea, r.below(3), r.below(2), r.below(2)));
+            out.push(format!("qa gqlstar {} {} {} {} {}", na, ea, pick_label(&mut r), r.below(2), r.below(2)));
         }
     }
 }
@@ -490,6 +554,24 @@ pub fn run(args: &[&str]) -> String {
             let s = db.session();
             show_result(*order != "-", s.execute_graphql(&text))
         }
+        ["cross", nodes, edges, label, hops, preds, key] => {
+            let last = if *hops == "-" { 0 } else { hops.split(',').count() };
+            let col = format!("{}.{}", last, key);
+            let core = crate::q::render(label, hops, preds, &col, "0", "-", "-", "-");
+            let mut outs = vec![];
+            for lang in ["gql", "cypher", "gremlin", "graphql"] {
+                let db = build_db(&parse_nodes(nodes), &parse_edges(edges));
+                let s = db.session();
+                let res = match lang {
+                    "gql" => s.execute(&core),
+                    "cypher" => s.execute_cypher(&core),
+                    "gremlin" => s.execute_gremlin(&render_gremlin(label, hops, preds, "-", "-", "-", key, "0", "-")),
+                    _ => s.execute_graphql(&render_graphql(label, hops, preds, &col, "-", "-", "-")),
+                };
+                outs.push(show_result(false, res));
+            }
+            outs.join("/")
+        }
         ["gqlstar", nodes, edges, label, t1, t2] => {
             let db = build_db(&parse_nodes(nodes), &parse_edges(edges));
             let text = format!("{{ l{} {{ k9 T{} {{ k9 }} T{} {{ k9 }} }} }}", label, t1, t2);
@@ -500,6 +582,17 @@ pub fn run(args: &[&str]) -> String {
         ["text", "agg", _n, _e, start, hops, preds, items, ord, skip, lim, _lang] => render_agg(start, hops, preds, items, ord, skip, lim),
         ["text", "gremlin", _n, _e, start, hops, preds, order, skip, lim, proj, dedup, agg] => render_gremlin(start, hops, preds, order, skip, lim, proj, dedup, agg),
         ["text", "graphql", _n, _e, label, hops, preds, cols, order, skip, first] => render_graphql(label, hops, preds, cols, order, skip, first),
+        ["text", "gqlstar", _n, _e, label, t1, t2] => format!("{{ l{} {{ k9 T{} {{ k9 }} T{} {{ k9 }} }} }}", label, t1, t2),
+        ["text", "cross", _n, _e, label, hops, preds, key] => {
+            let last = if *hops == "-" { 0 } else { hops.split(',').count() };
+            let col = format!("{}.{}", last, key);
+            format!(
+                "{} || {} || {}",
+                crate::q::render(label, hops, preds, &col, "0", "-", "-", "-"),
+                render_gremlin(label, hops, preds, "-", "-", "-", key, "0", "-"),
+                render_graphql(label, hops, preds, &col, "-", "-", "-")
+            )
+        }
         ["raw", nodes, edges, lang, hexq] => {
             let db = build_db(&parse_nodes(nodes), &parse_edges(edges));
             let text = String::from_utf8(unhex(hexq).unwrap()).unwrap();
